@@ -264,7 +264,7 @@ func openCache(path string) (*repository.GoGitRepo, *cache.RepoCache, error) {
 
 func errTag(err error) string { return "error:" + tidy(err.Error()) }
 
-var scratchPath = regexp.MustCompile(`/[^ ]*/verif\.\d+/w/`)
+var scratchPath = regexp.MustCompile(`/[^ ]*/verif\.[^/ ]+/w/`)
 
 // tidy makes a message usable as an outcome tag: no ids, no scratch paths, one line.
 func tidy(msg string) string {
@@ -659,8 +659,9 @@ func (m *model) key() (string, error) {
 	_, e1 := os.Stat(filepath.Join(m.hostGit(), "git-bug", "cache"))
 	_, e2 := os.Stat(filepath.Join(m.hostGit(), "git-bug", "lock"))
 	fmt.Fprintf(&sb, "\ncache=%v lock=%v created=%d", e1 == nil, e2 == nil, m.cur.Created)
-	if os.Getenv("VERIF_C15_DEBUGKEY") != "" {
-		fmt.Fprintf(os.Stderr, "KEY for %v:\n%s\n\n", m.cur.Path, sb.String())
+	if d := os.Getenv("VERIF_C15_DEBUGKEY"); d != "" {
+		os.MkdirAll(d, 0o755)
+		os.WriteFile(filepath.Join(d, strings.Join(m.cur.Path, ",")+".key"), []byte(sb.String()), 0o644)
 	}
 	return shortHash(sb.String()), nil
 }
